@@ -215,6 +215,30 @@ impl Prop for C14 {
         if src.lines().any(|l| l.trim_end().ends_with("{ // c") || l.trim_end().ends_with("} // c") || l.contains("{ //") || l.trim_start().starts_with("} //")) {
             tags.push("line_comment_after_brace".into());
         }
+        // `else { .. } /* c */ )`: a block comment between the closing brace of an else block and a closing parenthesis
+        if squeezed.match_indices("} /* c */ )").any(|(i, _)| {
+            let b = squeezed.as_bytes();
+            let (mut depth, mut k) = (0i32, i);
+            loop {
+                match b[k] {
+                    b'}' => depth += 1,
+                    b'{' => {
+                        depth -= 1;
+                        if depth == 0 {
+                            break;
+                        }
+                    }
+                    _ => {}
+                }
+                if k == 0 {
+                    return false;
+                }
+                k -= 1;
+            }
+            squeezed[..k].trim_end().ends_with("else")
+        }) {
+            tags.push("block_comment_between_else_block_and_parenthesis".into());
+        }
         let mut fails: Vec<Fail> = vec![];
         let mut outcome = "preserved";
         for &w in &WIDTHS {
